@@ -275,7 +275,7 @@ def rules(ctx):
             v = canon(v)
             if isinstance(v, ast.IfExp) and src(v.test) == prob and const_num(v.orelse) == 0:
                 b = v.body
-                if isinstance(b, ast.BinOp) and isinstance(b.op, ast.Div) and src(b.right) == 'log(%s)' % prob and \
+                if isinstance(b, ast.BinOp) and isinstance(b.op, ast.Div) and src(b.right) in ('log(%s)' % prob, 'math.log(%s)' % prob, 'np.log(%s)' % prob, 'numpy.log(%s)' % prob) and \
                         isinstance(b.left, ast.UnaryOp) and isinstance(b.left.op, ast.USub) and isinstance(b.left.operand, ast.Name):
                     en = b.left.operand.id
                     edefs = [x for s_, x in assignments_to(fn.node, en) if isinstance(x, ast.AST)]
